@@ -124,7 +124,8 @@ def run(rep):
     proof_ok = C.proof_step(rep, "C07")
     C.ensure_driver()
     fsdbh = C.ensure_harness()
-    sk = LS.check(rep, fsdbh, ["UpdateTx"])
+    sk = LS.check(rep, fsdbh, ["UpdateTx", "Store"])      # the conflict test reads the newest committed entry: every publisher
+    # (autocommit Store included) must draw its number inside the section that publishes it, or the newest entry is not the last one
     cases = P.corpus("c07.txt")
     ncorpus = len(cases)
     n2, n3 = (40, 12) if rep.tier == "quick" else (400, 150)
@@ -178,7 +179,7 @@ def run(rep):
         samples=[dict(case=cases[k].split("\n"), impl=impl[k]) for k in (ncorpus, len(cases) - 1)],
         refuted_theorems=["C07_first_committer_wins_refuted_orig (pinned tree; repaired by a fix: commit)"],
         proof_ok=proof_ok)
-    LS.conclude(rep, sk, 'conflict test and publication in ONE critical section of the committed store: C07_one_critical_section')
+    LS.conclude(rep, sk, 'conflict test and publication in ONE critical section of the committed store: C07_one_critical_section; every publisher draws its sequence number inside the section that publishes the version, so the last committed entry of a key is its newest')
     # the atomic commit of the theorem works on ONE committed store: it must be registered from the moment Open returns
     # (Load puts it; commits that find none would each create and lock their own) - also for a store opened empty
     hm = ["case hm roots=1", "keytab 6b31", "hasmain", "begin RR", "set 1 1 1 3 s", "hasmain", "commit 1", "hasmain", "reopen", "hasmain", "end"]
